@@ -211,7 +211,7 @@ pub fn c05_scenario(ch: &mut Chooser, thorough: bool) -> Exec {
         }
         st.borrow_mut().step = k;
         if let Err(e) = sim.step() {
-            if !(limited && e.to_string().contains("Ran for duration")) {
+            if !(limited && is_timeout_err(&e.to_string())) {
                 violation = Some(Violation::new("sim-error", e.to_string()));
                 break;
             }
@@ -629,7 +629,7 @@ pub fn c11_scenario(ch: &mut Chooser, thorough: bool) -> Exec {
             Ok(Ok(())) => RunRes::Ok(sim.elapsed().as_millis() as u64),
             Ok(Err(e)) => {
                 let m = e.to_string();
-                if m.contains("Ran for duration") {
+                if is_timeout_err(&m) {
                     RunRes::Timeout(sim.elapsed().as_millis() as u64)
                 } else if m.contains("step never") {
                     RunRes::Timeout(u64::MAX)
@@ -772,7 +772,7 @@ pub fn c11_scenario(ch: &mut Chooser, thorough: bool) -> Exec {
         let fs: Vec<u64> = if 1 % tick == 0 { vec![1 / tick - 1, 1 / tick] } else { vec![1 / tick] };
         let may_finish = fs.iter().any(|f| *f == 0 || before_ms + f * tick <= dur);
         let may_time_out = fs.iter().any(|f| *f > 0 && before_ms + f * tick > dur);
-        let timed_out = matches!(&r, Ok(Err(e)) if e.to_string().contains("Ran for duration"));
+        let timed_out = matches!(&r, Ok(Err(e)) if is_timeout_err(&e.to_string()));
         let ok = (matches!(r, Ok(Ok(()))) && may_finish)
             || (timed_out && may_time_out)
             || (!timed_out && matches!(r, Ok(Err(_)) | Err(_)) && h_eff != Out::Absent && h_eff != Out::Never && h_eff.finish().map(|f| f.1 != 'o').unwrap_or(true));
@@ -808,4 +808,12 @@ pub fn c11_scenario(ch: &mut Chooser, thorough: bool) -> Exec {
         v.actions = vec![obs.clone()];
     }
     Exec { outcome: Digest::of64(&obs), violation, features: feats }
+}
+
+/// The error `Sim::run` / `Sim::step` report when the duration is exceeded is told apart from a
+/// software error by exclusion: every error a program of this harness produces carries one of the
+/// harness's own texts (or tokio's JoinError text), so the wording of turmoil's message is not
+/// relied upon.
+fn is_timeout_err(m: &str) -> bool {
+    !(m.contains("software failed") || m.contains("task failed") || m.contains("panicked") || m.contains("cancelled") || m.contains("step never"))
 }
